@@ -525,7 +525,20 @@ func families(run *vk.Run) []*family {
 			return nil
 		}, nil, []int{1, 2, 1}, []int{1, 2, 2}),
 		keysFamily(run),
+		shapesFamily(run),
 	}
+}
+
+// shapesFamily: S-shapes - entities below lists of lists and non-null wrappers
+// (entity batches collected from and merged back into nested lists).
+func shapesFamily(run *vk.Run) *family {
+	s := fedlab.SShapes()
+	return nearFamily(run, "S-shapes", s, fedlab.SShapesUniverse(s), func(r fedlab.FieldRef) int {
+		if r.Type == "Owner" || r.Field == "secret" || r.Field == "tags" {
+			return 1
+		}
+		return 0
+	}, nil, nil, []int{1, 2, 1}, []int{1, 2, 2})
 }
 
 func TestCheck(t *testing.T) {
